@@ -101,7 +101,19 @@ def run_simple(pid, tier, plan, replay=None):
             "violating_clauses": sorted({c for (_, _, _, c) in violations}), "exhaustive": bool(plan.get("exhaustive", False)),
         }
         coverage.update(plan.get("extra_coverage", {}))
-        if not replay:
+        if not replay and plan.get("merge_into_existing"):
+            # second stage of a check: fold this stage's coverage into the evidence the first stage wrote
+            path = os.path.join(VERIF, "evidence", pid + ".json")
+            ev = json.load(open(path))
+            ev["coverage"][plan["merge_into_existing"]] = coverage
+            ev["coverage"]["states"] += coverage["states"]
+            ev["coverage"]["transitions"] += coverage["transitions"]
+            ev["coverage"]["traces_validated_against_impl"] += coverage["traces_validated_against_impl"]
+            ev["violations"] = ev.get("violations", 0) + len(violations)
+            ev["wall_s"] = round(ev["wall_s"] + time.time() - t0, 1)
+            ev["assumptions"] = ev.get("assumptions", []) + plan.get("assumptions", [])
+            json.dump(ev, open(path, "w"), indent=1, ensure_ascii=False)
+        elif not replay:
             write_evidence(pid, tier, plan.get("level", "model_checking"), coverage, plan.get("assumptions", []),
                            time.time() - t0, len(violations))
         for k, n in sorted(knowns.items()):
